@@ -914,6 +914,9 @@ func (ex *Exec) callBuiltin(caller *Frame, callpos token.Pos, fn *ssa.Builtin, a
 			if x == nil {
 				return mkConst(64, 0)
 			}
+			if caller != nil {
+				ex.noteMapRead(caller, x)
+			}
 			return mkConst(64, uint64(x.n))
 		case *Chan:
 			if x == nil {
